@@ -136,6 +136,28 @@ def run(tier, mode):
             n_or += 1
             if isinstance(a, H.Exn) or isinstance(b, H.Exn) or (a.qqs, a.lots, a.pp_desc) != (b.qqs, b.lots, b.pp_desc):
                 fail('same_result', {'chain': chain, 'text': text, 'config': 'clean_qq'}, a if isinstance(a, H.Exn) else [a.pp_desc, a.qqs[:4]], b if isinstance(b, H.Exn) else [b.pp_desc, b.qqs[:4]])
+    # a bare quarter is an aliquot only under clean_qq -- also when the same Tract was parsed under clean_qq before
+    for q in ['NE', 'NW', 'SE', 'SW']:
+        for txt in (q, q + ', Lot 1', 'Lot 2; ' + q):
+            for seq in ('config_then_kw', 'kw_then_plain', 'preprocess_then_kw'):
+                def go():
+                    if seq == 'config_then_kw':
+                        t = pytrs.Tract(txt, parse_qq=True, config='clean_qq')
+                        t.parse(clean_qq=False)
+                    elif seq == 'kw_then_plain':
+                        t = pytrs.Tract(txt)
+                        t.parse(clean_qq=True)
+                        t.parse()
+                    else:
+                        t = pytrs.Tract(txt)
+                        t.preprocess(clean_qq=True, commit=True)
+                        t.parse(clean_qq=False)
+                    return t
+                t = H.call(go)
+                ref = H.call(lambda: pytrs.Tract(txt, parse_qq=True))
+                n_or += 1
+                if isinstance(t, H.Exn) or isinstance(ref, H.Exn) or (t.qqs, t.lots, t.pp_desc) != (ref.qqs, ref.lots, ref.pp_desc) or t.qqs:
+                    fail('bare_quarter_after_clean_qq', {'text': txt, 'sequence': seq}, t if isinstance(t, H.Exn) else [t.pp_desc, t.qqs], [txt, []])
     # bare quarters
     for q in ['NE', 'NW', 'SE', 'SW']:
         for ctx in [('', ''), ('', ', Lot 1'), ('Lot 2, ', ''), ('; ', '; ')]:
